@@ -579,9 +579,88 @@ func checkMain(args []string) int {
 		return 2
 	}
 
+	// 3. (after every harness) replay its counterexamples against the real build. Once a violation is
+	// confirmed the remaining harnesses are not explored (VERIF_ALL=1 explores them all): the check's verdict
+	// is already "violated", and a change that breaks the property can also make the larger harnesses far
+	// more expensive than they are on the unchanged tree.
+	nViol := 0
+	var violLines []string
+	var violSamples []interface{}
+	replayOf := func(hrs []*harnessResult) {
+		type pending struct {
+			doc  replayDoc
+			path string
+		}
+		byPkg := map[string][]pending{}
+		for _, hr := range hrs {
+			for _, v := range hr.Violations {
+				d := replayDoc{Property: prop, Harness: hr.Spec.Fn, Pkg: hr.Spec.Pkg, Kind: v.Kind, Msg: v.Msg, Values: v.Values, Params: hr.Params, Known: confirmed, Model: strings.Join(strings.Fields(v.Model), " ")}
+				if v.Par {
+					d.Stress = 4000
+				}
+				b, _ := json.MarshalIndent(d, "", " ")
+				h := sha256.Sum256(b)
+				dir := filepath.Join(verifRoot, "replays", prop)
+				os.MkdirAll(dir, 0o755)
+				path := filepath.Join(dir, hr.Spec.Fn+"-"+hex.EncodeToString(h[:6])+".json")
+				os.WriteFile(path, b, 0o644)
+				byPkg[hr.Spec.Pkg] = append(byPkg[hr.Spec.Pkg], pending{d, path})
+			}
+		}
+		for pkg, ps := range byPkg {
+			var files []string
+			for _, p := range ps {
+				files = append(files, p.path)
+			}
+			// data-race witnesses are confirmed by the race detector, one `go test -race` run each
+			var plain []string
+			outs := map[string]replayOutcome{}
+			failed := false
+			for _, p := range ps {
+				if p.doc.Kind != "race" {
+					plain = append(plain, p.path)
+					continue
+				}
+				o, txt, _ := replayNative(pkg, []string{p.path}, true)
+				ro := o[p.path]
+				ro.File = p.path
+				if strings.Contains(txt, "WARNING: DATA RACE") {
+					ro.Failed = append(ro.Failed, "DATA RACE")
+				}
+				outs[p.path] = ro
+			}
+			o2, txt, err := replayNative(pkg, plain, false)
+			if err != nil {
+				inconclusive = append(inconclusive, fmt.Sprintf("native replay in %s failed: %v\n%s", pkg, err, tailOf(txt, 40)))
+				failed = true
+			}
+			for k, v := range o2 {
+				outs[k] = v
+			}
+			if failed {
+				continue
+			}
+			_ = files
+			for _, p := range ps {
+				o := outs[p.path]
+				if reproduces(p.doc, o) {
+					nViol++
+					violLines = append(violLines, fmt.Sprintf("VIOLATION property=%s replay=%s", prop, p.path))
+					fmt.Printf("  counterexample: harness=%s %s=%q values=%v\n", p.doc.Harness, p.doc.Kind, p.doc.Msg, compactValues(p.doc.Values))
+					if o.Panic != "" {
+						fmt.Printf("  native panic: %s\n", firstLines(o.Panic, 6))
+					}
+					violSamples = append(violSamples, map[string]interface{}{"harness": p.doc.Harness, "kind": p.doc.Kind, "id": p.doc.Msg, "values": p.doc.Values, "replay": p.path})
+				} else {
+					inconclusive = append(inconclusive, fmt.Sprintf("ENGINE-MISMATCH: %s %s=%q was not reproduced by the native build (replay %s; native: failed=%v panic=%q assume=%v)", p.doc.Harness, p.doc.Kind, p.doc.Msg, p.path, o.Failed, firstLines(o.Panic, 2), o.Assume))
+				}
+			}
+		}
+	}
+
 	// 2. explore every harness of this property
 	var results []*harnessResult
-	for _, hs := range spec.Harnesses {
+	for hi, hs := range spec.Harnesses {
 		if *only != "" && hs.Fn != *only {
 			continue
 		}
@@ -602,79 +681,18 @@ func checkMain(args []string) int {
 		for _, l := range hr.MissingReach {
 			inconclusive = append(inconclusive, fmt.Sprintf("%s: reach witness %q was not reached by any feasible path (vacuous harness?)", hs.Fn, l))
 		}
-	}
-
-	// 3. replay every counterexample against the real build
-	type pending struct {
-		doc  replayDoc
-		path string
-	}
-	byPkg := map[string][]pending{}
-	for _, hr := range results {
-		for _, v := range hr.Violations {
-			d := replayDoc{Property: prop, Harness: hr.Spec.Fn, Pkg: hr.Spec.Pkg, Kind: v.Kind, Msg: v.Msg, Values: v.Values, Params: hr.Params, Known: confirmed, Model: strings.Join(strings.Fields(v.Model), " ")}
-			if v.Par {
-				d.Stress = 4000
-			}
-			b, _ := json.MarshalIndent(d, "", " ")
-			h := sha256.Sum256(b)
-			dir := filepath.Join(verifRoot, "replays", prop)
-			os.MkdirAll(dir, 0o755)
-			path := filepath.Join(dir, hr.Spec.Fn+"-"+hex.EncodeToString(h[:6])+".json")
-			os.WriteFile(path, b, 0o644)
-			byPkg[hr.Spec.Pkg] = append(byPkg[hr.Spec.Pkg], pending{d, path})
-		}
-	}
-	nViol := 0
-	var violLines []string
-	var violSamples []interface{}
-	for pkg, ps := range byPkg {
-		var files []string
-		for _, p := range ps {
-			files = append(files, p.path)
-		}
-		// data-race witnesses are confirmed by the race detector, one `go test -race` run each
-		var plain []string
-		outs := map[string]replayOutcome{}
-		failed := false
-		for _, p := range ps {
-			if p.doc.Kind != "race" {
-				plain = append(plain, p.path)
-				continue
-			}
-			o, txt, _ := replayNative(pkg, []string{p.path}, true)
-			ro := o[p.path]
-			ro.File = p.path
-			if strings.Contains(txt, "WARNING: DATA RACE") {
-				ro.Failed = append(ro.Failed, "DATA RACE")
-			}
-			outs[p.path] = ro
-		}
-		o2, txt, err := replayNative(pkg, plain, false)
-		if err != nil {
-			inconclusive = append(inconclusive, fmt.Sprintf("native replay in %s failed: %v\n%s", pkg, err, tailOf(txt, 40)))
-			failed = true
-		}
-		for k, v := range o2 {
-			outs[k] = v
-		}
-		if failed {
-			continue
-		}
-		_ = files
-		for _, p := range ps {
-			o := outs[p.path]
-			if reproduces(p.doc, o) {
-				nViol++
-				violLines = append(violLines, fmt.Sprintf("VIOLATION property=%s replay=%s", prop, p.path))
-				fmt.Printf("  counterexample: harness=%s %s=%q values=%v\n", p.doc.Harness, p.doc.Kind, p.doc.Msg, compactValues(p.doc.Values))
-				if o.Panic != "" {
-					fmt.Printf("  native panic: %s\n", firstLines(o.Panic, 6))
+		replayOf([]*harnessResult{hr})
+		if nViol > 0 && os.Getenv("VERIF_ALL") == "" {
+			skipped := 0
+			for _, rest := range spec.Harnesses[hi+1:] {
+				if ts2, ok := rest.Tiers[*tier]; ok && !ts2.Skip && (*only == "" || rest.Fn == *only) {
+					skipped++
 				}
-				violSamples = append(violSamples, map[string]interface{}{"harness": p.doc.Harness, "kind": p.doc.Kind, "id": p.doc.Msg, "values": p.doc.Values, "replay": p.path})
-			} else {
-				inconclusive = append(inconclusive, fmt.Sprintf("ENGINE-MISMATCH: %s %s=%q was not reproduced by the native build (replay %s; native: failed=%v panic=%q assume=%v)", p.doc.Harness, p.doc.Kind, p.doc.Msg, p.path, o.Failed, firstLines(o.Panic, 2), o.Assume))
 			}
+			if skipped > 0 {
+				fmt.Printf("note: a violation is confirmed; %d further harness(es) of this check were not explored (VERIF_ALL=1 explores all)\n", skipped)
+			}
+			break
 		}
 	}
 
